@@ -57,6 +57,14 @@ KERNELS += [
     RATIO("K_ml_ratio_block3d", "iterate_block_norm(BlockData3D&, const BlockData3D&, const FanProjData&)",
           r"iterate_block_norm\(BlockData3D& norm_block_data, const BlockData3D& measured_block_data, const FanProjData& model\)", r"measured_block_data\(ra, a, rb, b\)", r"norm_block_data\(ra, a, rb, b\)"),
 ]
+KERNELS.append(dict(name="K_fan_ctor", file=F, cxx_name="FanProjData::FanProjData(num_rings, num_detectors_per_ring, max_ring_diff, fan_size): member initialisers and the index-range loops",
+                    func=r"FanProjData::FanProjData\(const int num_rings, const int num_detectors_per_ring, const int max_ring_diff, const int fan_size\)", init_list=True,
+                    c_header="void K_fan_ctor(struct FAN* self, const int num_rings, const int num_detectors_per_ring, const int max_ring_diff, const int fan_size)", loops=3,
+                    rules=[(r"IndexRange<4> fan_indices;", "", 1), (r"fan_indices\.grow\(([^;]*)\);", r"IDX_GROW0(\1);", 1), (r"fan_indices\[ra\]\.grow\(([^;]*)\);", r"IDX_GROW1(ra, \1);", 1),
+                           (r"fan_indices\[ra\]\[a\]\.grow\(([^;]*)\);", r"IDX_GROW2(ra, a, \1);", 1),
+                           (r"fan_indices\[ra\]\[a\]\[rb\]\s*= IndexRange<1>\(([^;]*)\);", r"IDX_SET3(ra, a, rb, \1);", 1),
+                           (r"(?<![\w>.])grow\(fan_indices\);", "", 1), (r"(?<![\w>.])fill\(0\);", "", 1),
+                           (r"(?<![\w>._])(half_fan_size)\b", r"self->\1", (1, 3)), (r"\bmax\(", "K_max_int(", 3), (r"\bmin\(", "K_min_int(", 1)]))
 for k in KERNELS:
     if k["name"].startswith("K_fan_select"):
         k["contract_alias"] = "K_fan_select"
@@ -94,18 +102,22 @@ def jobs(tier, gen_dir):
         J("lemma_ml_fixed_point/" + k, "h_lemma_fixed_point_" + k, kind="lemma", repl=[k], kernels=[k], backend="sat", min_obligations=1, timeout=900)
     out.append(Job("c20/canary/K_ml_ratio_block3d", HARNESS, "h_K_ml_ratio_block3d", enforce="K_ml_ratio_block3d", kernels=["K_ml_ratio_block3d"], kind="canary",
                    defines={"CANARY_K_ml_ratio_block3d": None}, expect_fail=r"K_ml_ratio_block3d\.postcondition", no_base_flags=True, timeout=300))
+    J("K_fan_ctor", "h_K_fan_ctor", enforce="K_fan_ctor", kernels=["K_fan_ctor"], loop_contracts=True)
+    out.append(Job("c20/canary/K_fan_ctor", HARNESS, "h_K_fan_ctor", enforce="K_fan_ctor", kernels=["K_fan_ctor"], kind="canary", loop_contracts=True,
+                   defines={"CANARY_K_fan_ctor": None}, expect_fail=r"K_fan_ctor\.postcondition", no_base_flags=True, timeout=300, backend="kissat"))
     for k in ("K_fan_select", "K_remove_gaps_map"):
         out.append(Job("c20/canary/" + k, HARNESS, "h_" + k, enforce=k, replace=RD if "fan" in k else [], kernels=[k], kind="canary",
                        defines={"CANARY_" + k: None}, expect_fail=r"%s\.postcondition" % k, no_base_flags=True, timeout=300))
     return out
 
 
-TRUSTED = ["index ranges of FanProjData as built by its constructor (read from the source, assumed: the readers FAN_MIN_B/FAN_MAX_B/FAN_RB_MIN/FAN_RB_MAX)",
+TRUSTED = ["index ranges of FanProjData: the readers FAN_MIN_B/FAN_MAX_B/FAN_RB_MIN/FAN_RB_MAX have as contract the postcondition of the constructor kernel K_fan_ctor "
+           "(IndexRange<4>::grow / Array::grow deliver the requested ranges: C11)",
            "get_det_pair_for_bin / get_bin_for_det_pair are decided under C01"]
 ASSUMPTIONS = ["parametric: crystals per block / virtual crystals per block are constants per job; crystal and ring numbers < 100000"]
 UNDECIDED_CLAUSES = ["apply/un-apply of efficiencies, geometric and block factors (float products; un-apply restores only up to rounding)",
                      "fixed point of iterate_efficiencies, of the make_geo_data / make_block_data sums around the element update, and Kullback-Leibler descent of the ML iterations", "the loops of make_fan_data_remove_gaps_help / set_fan_data_add_gaps_help around the index maps",
-                     "FanProjData constructor (index ranges assumed)"]
+                     "GeoData3D / BlockData3D / DetPairData constructors (same pattern, not under contract)"]
 
 
 def param_summary(tier):
